@@ -180,3 +180,104 @@ pub async fn guarded_async<T>(f: impl std::future::Future<Output = T>) -> Result
     })
     .await
 }
+
+/// Supervisor for suites whose real-code calls can kill the process (allocation abort) or never return:
+/// the cases run in a child process (`<exe> <worker_suite> <seed> <tier> <start index>`) that streams tagged lines
+/// (`C\t<idx>` next case index, `S\t<setup line>`, `O\t<op>`, `I\t<answer>`, `H\t<hist key>`, `M\t<key>\t<what>\t<json>`,
+/// `E\t<n>` end). Silence for `stall_ms` inside a case or the death of the child becomes the answer returned by
+/// `on_fail(op, died)` = (answer, finding key, what); the worker is restarted at the next index.
+pub fn supervise(
+    out: &mut Out,
+    worker_suite: &str,
+    seed: u64,
+    tier: &str,
+    stall_ms: u64,
+    max_failures: usize,
+    on_fail: &dyn Fn(&str, bool) -> (String, String, String),
+) -> usize {
+    use std::io::{BufRead, BufReader};
+    use std::process::{Command, Stdio};
+    use std::sync::mpsc;
+    use std::time::Duration;
+    let exe = std::env::current_exe().unwrap();
+    let mut start = 0usize;
+    let mut failures = 0usize;
+    'outer: loop {
+        let mut child = Command::new(&exe)
+            .args([worker_suite, &seed.to_string(), tier, &start.to_string()])
+            .stdout(Stdio::piped())
+            .stderr(Stdio::null())
+            .spawn()
+            .unwrap();
+        let stdout = child.stdout.take().unwrap();
+        let (tx, rx) = mpsc::channel::<String>();
+        std::thread::spawn(move || {
+            for l in BufReader::new(stdout).lines() {
+                if let Ok(l) = l {
+                    if tx.send(l).is_err() {
+                        break;
+                    }
+                }
+            }
+        });
+        let mut cur = start;
+        let mut pending: Option<String> = None;
+        loop {
+            let wait = if pending.is_some() { stall_ms } else { 300_000 };
+            let r = rx.recv_timeout(Duration::from_millis(wait));
+            match r {
+                Ok(l) => {
+                    let (tag, rest) = l.split_once('\t').unwrap_or((&l, ""));
+                    match tag {
+                        "C" => cur = rest.parse().unwrap_or(cur),
+                        "S" => out.setup(rest),
+                        "O" => pending = Some(rest.to_string()),
+                        "I" => {
+                            if let Some(op) = pending.take() {
+                                out.case(&op, rest);
+                            }
+                        }
+                        "H" => out.count(rest),
+                        "M" => {
+                            let p: Vec<&str> = rest.splitn(3, '\t').collect();
+                            if p.len() == 3 {
+                                out.monitor_fail(p[0], p[1], serde_json::from_str(p[2]).unwrap_or(serde_json::Value::Null));
+                            }
+                        }
+                        "E" => {
+                            let _ = child.wait();
+                            break 'outer;
+                        }
+                        _ => {}
+                    }
+                }
+                Err(e) => {
+                    let died = matches!(e, mpsc::RecvTimeoutError::Disconnected);
+                    let _ = child.kill();
+                    let _ = child.wait();
+                    if let Some(op) = pending.take() {
+                        let (ans, key, what) = on_fail(&op, died);
+                        out.case(&op, &ans);
+                        let short = if op.len() > 3000 { format!("{}…", &op[..3000]) } else { op.clone() };
+                        out.monitor_fail(&key, &what, serde_json::json!({"case_index": cur, "seed": seed, "tier": tier, "op": short}));
+                    } else {
+                        out.count("worker-ended-outside-a-case");
+                        if died && start == cur {
+                            // no progress at all: give up rather than loop
+                            out.count("worker-makes-no-progress");
+                            break 'outer;
+                        }
+                    }
+                    failures += 1;
+                    start = cur + 1;
+                    if failures > max_failures {
+                        out.count("too-many-worker-failures-stopped-early");
+                        break 'outer;
+                    }
+                    continue 'outer;
+                }
+            }
+        }
+    }
+    failures
+}
